@@ -75,6 +75,8 @@ def type_neutral(t):
 
 def neutral(obj, ns_name, depth=0):
     cls = type(obj).__name__
+    if cls == 'ErrorQuarkFunction':
+        cls = 'Function'        # a scanner-internal subclass (error domain carrier); in the GIR it is a function like any other
     if obj is None or isinstance(obj, (str, int, float, bool)):
         return obj
     if cls in ('Type', 'Array', 'List', 'Map', 'Varargs', 'TypeUnknown'):
